@@ -135,7 +135,7 @@ fn ext_of(d: u32) -> FieldExtension {
 
 pub fn subs(run: &Arc<Run>) -> Vec<Arc<dyn Sub>> {
     let thorough = run.tier().is_thorough();
-    run.rule("conjectured estimate: every (queries 1..255) x (blowup 2..128) x (grinding 0..32) x 3 extensions x field bits {62,64,128} x trace lengths 2^3..2^32 (all in thorough, {3,4,10,20,29,32} in quick) x collision resistance {96,100,112,124,127,128}, each compared with the independently computed formula and with its successor in every monotone dimension; proven estimate: a lattice of the same space (all queries x all blowups x grinding {0,8,16,32} x 3 extensions x 3 fields x lengths {2^3,2^10,2^20,2^32} thorough; coarser quick), successor comparisons in queries / grinding / extension / collision resistance, plus pinned values; policy: AcceptableOptions::validate at level-1, level, level+1 for both estimates and OptionSet membership for every enumerated context of a sub-lattice; a case is one (queries, blowup, grinding) triple with the remaining dimensions in the inner loop; distinct by enumeration index");
+    run.rule("conjectured estimate: every (queries 1..255) x (blowup 2..128) x (grinding 0..32) x 3 extensions x field bits {62,64,128} x trace lengths 2^3..2^32 (all in thorough, {3,4,10,20,29,32} in quick) x collision resistance {96,100,112,124,127,128}, each compared with the independently computed formula and with its successor in every monotone dimension; proven estimate: a lattice of the same space (all queries x all blowups x grinding {0,8,16,32} x 3 extensions x 3 fields x lengths {2^3,2^10,2^20,2^32} thorough; coarser quick), successor comparisons in queries / grinding / extension / collision resistance, plus pinned values; policy: AcceptableOptions::validate at level-1, level, level+1 for both estimates and OptionSet membership for every enumerated context of a sub-lattice; verify() of a 64-bit computation on proofs claiming other moduli (128-bit, 62-bit, tiny, over-long) under six policies refuses without panicking and never reports a level computed from the claimed field; a case is one (queries, blowup, grinding) triple with the remaining dimensions in the inner loop; distinct by enumeration index");
     run.assume("the conjectured formula is min(min(field_bits*ext_degree - log2(lde_domain), log2(blowup)*queries [+ grinding if >= 80]) - 1, collision_resistance), as implemented from the ethSTARK conjecture and described in the crate documentation");
     let mut subs: Vec<Arc<dyn Sub>> = vec![];
     let blowups: [u32; 7] = [2, 4, 8, 16, 32, 64, 128];
@@ -445,5 +445,88 @@ pub fn subs(run: &Arc<Run>) -> Vec<Arc<dyn Sub>> {
         ));
     }
     let _ = TraceInfo::new(1, 8);
+    // ---- proofs whose claimed field differs from the computation's field: verify() of a computation over the 64-bit field
+    // on proofs claiming other moduli must refuse without panicking, and a policy error must never carry a level computed
+    // from the claimed field
+    subs.push(sub_t(
+        "claimed_field",
+        1,
+        60,
+        true,
+        move |_, out| {
+            use air::{Air, AirContext, Assertion, EvaluationFrame, TransitionConstraintDegree};
+            use math::FieldElement;
+            struct IncAir {
+                ctx: AirContext<B64>,
+            }
+            impl Air for IncAir {
+                type BaseField = B64;
+                type PublicInputs = ();
+                type GkrProof = ();
+                type GkrVerifier = ();
+                fn new(info: TraceInfo, _p: (), opts: ProofOptions) -> Self {
+                    IncAir { ctx: AirContext::new(info, vec![TransitionConstraintDegree::new(1)], 1, opts) }
+                }
+                fn context(&self) -> &AirContext<B64> {
+                    &self.ctx
+                }
+                fn evaluate_transition<E: FieldElement<BaseField = B64>>(&self, frame: &EvaluationFrame<E>, _pv: &[E], result: &mut [E]) {
+                    result[0] = frame.next()[0] - frame.current()[0] - E::ONE;
+                }
+                fn get_assertions(&self) -> Vec<Assertion<B64>> {
+                    vec![Assertion::single(0, 0, B64::ZERO)]
+                }
+            }
+            type H = hashers::Blake3_256<B64>;
+            // claimed moduli: the other two fields, tiny and huge values, the right one (control)
+            let claims: Vec<(&str, Vec<u8>)> = vec![
+                ("128-bit field", kit::refmath::P128.to_le_bytes().to_vec()),
+                ("62-bit field", kit::refmath::P62.to_le_bytes()[..8].to_vec()),
+                ("3", vec![3]),
+                ("2^16 + 1", vec![1, 0, 1]),
+                ("2^200 (25 bytes)", {
+                    let mut v = vec![0u8; 25];
+                    v.push(1);
+                    v
+                }),
+            ];
+            let mut n = 0u64;
+            for (cname, modulus) in claims {
+                for (q, blowup, log_len) in [(200usize, 8usize, 10u8), (1, 2, 3), (255, 128, 20), (30, 4, 25)] {
+                    let opts = ProofOptions::new(q, blowup, 0, FieldExtension::None, 4, 7);
+                    let mut bytes = vec![1u8, 0, 0, log_len, 0, 0];
+                    bytes.push(modulus.len() as u8);
+                    bytes.extend(&modulus);
+                    bytes.extend(opts.to_bytes());
+                    let Ok(ctx) = Context::read_from(&mut SliceReader::new(&bytes)) else { continue };
+                    let mut p = Proof::new_dummy();
+                    p.context = ctx;
+                    // the level the policy may legitimately talk about: the one of the computation's own field
+                    let own = ref_conjectured(q as u32, blowup as u32, 0, 1, 64, log_len as u32, 128);
+                    let pols = [("MinConjecturedSecurity(0)", AcceptableOptions::MinConjecturedSecurity(0)), ("MinConjecturedSecurity(level + 1)", AcceptableOptions::MinConjecturedSecurity(own + 1)), ("MinConjecturedSecurity(127)", AcceptableOptions::MinConjecturedSecurity(127)), ("MinProvenSecurity(0)", AcceptableOptions::MinProvenSecurity(0)), ("MinProvenSecurity(127)", AcceptableOptions::MinProvenSecurity(127)), ("OptionSet", AcceptableOptions::OptionSet(vec![opts.clone()]))];
+                    for (polname, pol) in pols.iter() {
+                        n += 1;
+                        let info = || json!({"claimed_modulus": cname, "queries": q, "blowup": blowup, "log2_trace_length": log_len, "policy": polname});
+                        match pan::catch(|| verifier::verify::<IncAir, H, crypto::DefaultRandomCoin<H>>(p.clone(), (), pol)) {
+                            Err(pr) => out.violation(format!("verify() panics on a proof that claims another field ({})", pr.class()), info()),
+                            Ok(Ok(())) => out.violation("verify() accepts a proof that claims another field".to_string(), info()),
+                            Ok(Err(e)) => {
+                                let s = format!("{:?}", e);
+                                if let Some(rest) = s.strip_prefix("InsufficientConjecturedSecurity(") {
+                                    let got: Vec<u32> = rest.trim_end_matches(')').split(',').filter_map(|x| x.trim().parse().ok()).collect();
+                                    if got.len() == 2 && got[1] != own {
+                                        out.violation("the acceptance policy reports a security level computed from the field the proof claims, not from the field of the computation".to_string(), json!({"case": info(), "reported_level": got[1], "level_for_the_computation_field": own}));
+                                    }
+                                }
+                            },
+                        }
+                    }
+                }
+            }
+            out.evals(n);
+            out.nontrivial_n(n);
+        },
+        |_| json!({"checks": "verify() on proofs claiming moduli of other fields, tiny and over-long moduli, under six policies"}),
+    ));
     subs
 }
